@@ -8,13 +8,24 @@ use crate::proto;
 use crate::refhash;
 use crate::wire::{self, BackendSpec, Env};
 use bytes::BytesMut;
+#[cfg(feature = "lib")]
 use pgcat::pool::PoolSettings;
+#[cfg(feature = "lib")]
 use pgcat::query_router::QueryRouter;
 use proptest::prelude::*;
 use serde::{Deserialize, Serialize};
 
 pub fn check(tier: Tier, seed: u64, replay: (Option<&str>, Option<&str>)) -> Vec<PartReport> {
-    crate::run_parts!(tier, seed, replay, [LibPart, WirePart])
+    #[cfg(feature = "lib")]
+    {
+        crate::run_parts!(tier, seed, replay, [LibPart, WirePart])
+    }
+    #[cfg(not(feature = "lib"))]
+    {
+        let mut v = vec![crate::engine::lib_unavailable("C13", "lib")];
+        v.extend(crate::run_parts!(tier, seed, replay, [WirePart]));
+        v
+    }
 }
 
 #[derive(Clone, Copy, Debug, PartialEq, Eq, Serialize, Deserialize)]
@@ -352,8 +363,10 @@ fn case_strategy(max: usize) -> BoxedStrategy<Case> {
         .boxed()
 }
 
+#[cfg(feature = "lib")]
 pub struct LibPart;
 
+#[cfg(feature = "lib")]
 impl Part for LibPart {
     type Case = Case;
     fn prop(&self) -> &'static str {
